@@ -221,7 +221,8 @@ def run(tier, seed, log):
         "every ordered multigraph of each space (all classes x all ordered end pairs incl. self-loops, "
         "every construction order), built on the real code; per state every vertex x 3 directions x 3 "
         "unknown modes x 5 filters vs the decision-table oracle, plus forward/backward duality for 2 unknown "
-        "modes x 3 filters x all ordered vertex pairs; non-trivial = the queried vertex has a link "
+        "modes x 3 filters x all ordered vertex pairs; then the whole table twice more with caching on, on a "
+        "re-built world; non-trivial = the queried vertex has a link "
         "(duality: the pair is joined in one of the two answers)")
     rep.assumptions = ["main table with caching off; the table is repeated twice with caching on (memos left by "
                        "earlier calls, including calls that raised, are read by later ones); ends are vertices",
